@@ -211,8 +211,14 @@ pub fn gen_project(seed: u64) -> Project {
     }
     // A diagnostics limit makes "which diagnostics survive" a function of the processing
     // order if anything but errors is counted against it.
-    if rng.chance(1, 3) {
+    if rng.chance(1, 2) {
         g.project.toml.extra_build.push(format!("error_count_limit = {}", 1 + rng.below(3)));
+        for (name, module) in [("src/a_warn.veryl", "AWarn"), ("src/m_warn.veryl", "MWarn"), ("src/z_warn.veryl", "ZWarn")] {
+            g.project.files.insert(
+                name.to_string(),
+                format!("module {module} (\n    i: input  logic,\n    o: output logic,\n) {{\n    let unused_{}: logic = i;\n    let unused2_{}: logic = i;\n    assign o = i;\n}}\n", module.to_lowercase(), module.to_lowercase()),
+            );
+        }
         // ... which only matters with several warnings spread over several files
         for (path, variant) in [("src/mod_b.veryl", 3usize), ("src/diag.veryl", 1), ("src/attr_m.veryl", 1), ("examples/ex_top.veryl", 1), ("src/sub.veryl", 1)] {
             for u in wgen::shapes::units() {
